@@ -211,6 +211,65 @@ def fstrText : List PyVal → String
 /-- an f-string -/
 def fstr (parts : List PyVal) : PyVal := .str (fstrText parts)
 
+/-! ### loops with a step budget, in-place list operations, sets (harness/pytolean_loops.py; C18: `StaticRoleResolver.expand`) -/
+
+/-- `while cond: body` with a step budget.  A general `while` has no total meaning; `fuel` bounds the number of times the body
+    may run: `some st` = the condition became false in state `st` after at most `fuel` runs of the body, `none` = the budget ran
+    out first.  The state is the tuple of the variables the body assigns or mutates (loop-local temporaries are not part of it);
+    `continue` and running off the end of the body both yield the next state.  Termination of the source loop is then a theorem:
+    some explicit budget suffices. -/
+def whileFuel {σ : Type} (fuel : Nat) (st : σ) (cond : σ → Bool) (body : σ → σ) : Option σ :=
+  match fuel with
+  | 0 => if cond st then Option.none else some st
+  | n + 1 => if cond st then whileFuel n (body st) cond body else some st
+
+/-- the value of `xs.pop()`: the last element (CPython raises IndexError on an empty list — not represented: the translated
+    source pops under `while xs:`) -/
+def listLast : PyVal → PyVal
+  | .list xs => xs.getLast?.getD PyVal.none
+  | _ => PyVal.none
+
+/-- the list `xs` is bound to after `xs.pop()` (only emitted for a list the function built itself and has not aliased) -/
+def listInit : PyVal → PyVal
+  | .list xs => .list xs.dropLast
+  | v => v
+
+/-- `set()`.  A Python set of hashable JSON values is represented by the duplicate-free list of its members; the translator
+    accepts a set variable only as the receiver of `.add`, the right operand of `in` / `not in` (`inSet`) and the argument of
+    `sorted` — nothing that could observe CPython's iteration order. -/
+def setEmpty : PyVal := .list []
+
+/-- the set `s` is bound to after `s.add(x)`: unchanged when a member equals `x` (`==`; equal hashable JSON values have equal
+    hashes), else with `x` added.  An unhashable `x` (list/dict) raises TypeError in CPython — not represented. -/
+def setAdd : PyVal → PyVal → PyVal
+  | .list xs, x => if xs.any (fun y => pyEq y x) then .list xs else .list (x :: xs)
+  | s, _ => s
+
+/-- `d.get(k, default)`: the stored value when the key is present (also when that value is `None`), else `default`; a non-string
+    key is in no JSON dict.  (CPython raises AttributeError for a non-dict `d` and TypeError for an unhashable `k`: not represented.) -/
+def getDV (d k dflt : PyVal) : PyVal :=
+  match d, k with
+  | .dict kvs, .str s => (PyVal.lookup s kvs).getD dflt
+  | _, _ => dflt
+
+/-- `a < b` on `str`: lexicographic by code point = Lean's `<` on `String`.  Any other pair: `false` (CPython compares numbers
+    and lists, raises TypeError for mixed kinds — not represented: `sorted` is emitted for collections of role names). -/
+def strLt : PyVal → PyVal → Bool
+  | .str a, .str b => decide (a < b)
+  | _, _ => false
+
+def insertSorted (x : PyVal) : List PyVal → List PyVal
+  | [] => [x]
+  | y :: ys => if strLt x y then x :: y :: ys else y :: insertSorted x ys
+
+def sortList : List PyVal → List PyVal
+  | [] => []
+  | x :: xs => insertSorted x (sortList xs)
+
+/-- `sorted(v)` for a collection of strings (list, or a set in the representation above): insertion sort by `strLt`.  Equal strings
+    are indistinguishable, so stability is not observable. -/
+def sorted (v : PyVal) : PyVal := .list (sortList (iter v))
+
 def eq (a b : PyVal) : PyVal := .bool (pyEq a b)
 def ne (a b : PyVal) : PyVal := .bool (!pyEq a b)
 def isNone (a : PyVal) : PyVal := .bool a.isNone
